@@ -86,3 +86,10 @@ CLAIMED['C14'] = (
     'distance series cut to arbitrary non-negative reals for amplitudes; z3.',
     'DESIGN.md §3 C14')
 NOT_APPLICABLE.pop('C14', None)
+CLAIMED['C08'] = (
+    'symbolic execution of trajectory_to_volume on real-valued sample coordinates (z3) and of the voxel<->fractional mapping on binary64/int64 terms (QF_BVFP, cvc5)',
+    'REAL: for all sample coordinates in [0,1) every voxel count equals the number of samples whose floor(x*n) is that voxel, the sum equals frames x atoms, edge bounds hold for the listed resolutions. '
+    'FP: the round trip voxel -> fractional centre -> voxel is the identity for every grid size n and index v in the bound (cvc5 unsat over all int64/float64 values in range).',
+    'np.linspace edges read as exact k/n; positions in [0,1) (C01); numpy float64/int64 conversion semantics as modelled in symgem.fp; z3 and cvc5 1.4.',
+    'DESIGN.md §3 C08')
+NOT_APPLICABLE.pop('C08', None)
